@@ -436,6 +436,79 @@ def run(rd, emit, log, enum_values, ti_default):
     body += 'Definition f_sb_ti_parents : list (string * string) := %s.\n\n' % blist(
         ['(%s, %s)' % (coqs(c), coqs(ti_parent[c])) for c in sorted(ti_parent)])
 
+    # ---------------------------------------------------------------- constructors / destructors of script-constructible types
+    # VMOps::ConstructorCall has no sandbox test: a sandboxed expression may construct (and thereby later destroy) a temporary
+    # object of every non-abstract type.  A constructor or destructor body that writes a STATIC (process-global) datum
+    # unconditionally is an effect of that sandboxed evaluation.  Accepted form: the write guarded by `if (<static> == this)`.
+    ti_abstract = set()
+    for f in sorted(glob.glob(os.path.join(REPO, 'lib', '**', '*.ti'), recursive=True)):
+        t = strip_comments(open(f, encoding='utf-8', errors='replace').read())
+        for m in re.finditer(r'\babstract\s+class\s+(\w+)', t):
+            ti_abstract.add(m.group(1))
+    ti_classes = sorted(set(ti_hidden) | set(ti_parent))
+    statics_of = {}      # file stem -> static data names declared there (members `static T m_X;` and file statics `static T l_X`)
+    for rel, t in texts.items():
+        stem = rel.rsplit('.', 1)[0]
+        names = set(re.findall(r'\bstatic\s+(?!inline\b)[\w:<>,\s\*&]+?\b([ml]_\w+)\s*(?:;|=|\(|\{)', t))
+        statics_of.setdefault(stem, set()).update(names)
+    cd_writes = []       # (class, "ctor"/"dtor", static name)
+    cd_seen = 0
+    for rel, t in sorted(texts.items()):
+        if not rel.endswith('.cpp'):
+            continue
+        stem = rel.rsplit('.', 1)[0]
+        for m in re.finditer(r'(?m)^(\w+)::(~?)\1\s*\(', t):
+            cls = m.group(1)
+            if cls not in ti_classes:
+                continue
+            e = balanced(t, m.end() - 1)
+            mb = re.match(r'[^{;]*\{', t[e:])
+            if not mb:
+                continue
+            be = balanced(t, e + mb.end() - 1, '{', '}')
+            bodytext = t[e + mb.end():be - 1]
+            cd_seen += 1
+            for nm in sorted(statics_of.get(stem, ())):
+                b2 = re.sub(r'if\s*\(\s*' + nm + r'\s*==\s*this\s*\)\s*\{?\s*' + nm + r'\s*=\s*nullptr\s*;\s*\}?', ' ', bodytext)
+                b2 = re.sub(r'if\s*\(\s*this\s*==\s*' + nm + r'(?:\s*\.\s*get\s*\(\s*\))?\s*\)\s*\{?\s*' + nm + r'\s*=\s*nullptr\s*;\s*\}?', ' ', b2)
+                if re.search(r'(?<![\w.>])' + nm + r'\s*(=(?!=)|[-+|&^*/]=|\+\+|--|\.\s*(?:reset|clear|insert|erase|push_back|emplace\w*|swap|store|exchange)\s*\(|->\s*\w+\s*\()', b2) or \
+                        re.search(r'(\+\+|--)\s*' + nm + r'\b', b2):
+                    cd_writes.append((cls, 'dtor' if m.group(2) else 'ctor', nm))
+    body += ('(* constructors / destructors of .ti classes whose body writes a static datum unconditionally (not under `if (<static> == this)`):\n'
+             '   (class, (ctor|dtor, static name)); %d constructor/destructor definitions of .ti classes were located *)\n' % cd_seen)
+    body += 'Definition f_sb_ctor_static_writes : list (string * (string * string)) := %s.\n' % blist(
+        ['(%s, (%s, %s))' % (coqs(a), coqs(b), coqs(c)) for a, b, c in sorted(set(cd_writes))])
+    body += 'Definition f_sb_ctor_dtor_located : Z := %d.\n' % cd_seen
+    flagged_cls = {a for a, _, _ in cd_writes}
+    ctor_global = []
+    for c in ti_classes:
+        if c in ti_abstract:
+            continue
+        a, seen = c, set()
+        while a and a not in seen:
+            seen.add(a)
+            if a in flagged_cls:
+                ctor_global.append(c)
+                break
+            a = ti_parent.get(a)
+    body += '(* non-abstract types whose construction + destruction inside a sandboxed evaluation therefore touches process-global state *)\n'
+    body += 'Definition f_sb_ctor_global : list string := [%s].\n' % '; '.join(coqs(x) for x in ctor_global)
+    va = []
+    for f in sorted(glob.glob(os.path.join(REPO, 'lib', '**', '*.ti'), recursive=True)):
+        t = strip_comments(open(f, encoding='utf-8', errors='replace').read())
+        va += re.findall(r'\bvararg_constructor\s+(?:abstract\s+)?class\s+(\w+)', t)
+    objcpp = strip_comments(rd('lib/base/object.cpp'))
+    chk = fn_body(objcpp, r'void\s+icinga::DefaultObjectFactoryCheckArgs\s*\(') or ''
+    objhpp = strip_comments(rd('lib/base/object.hpp'))
+    fac = re.search(r'DefaultObjectFactory\s*\(const std::vector<Value>&\s*args\)\s*\{\s*DefaultObjectFactoryCheckArgs\s*\(\s*args\s*\)\s*;\s*return\s+new\s+T\s*\(\s*\)\s*;', objhpp)
+    body += '(* types declared vararg_constructor in the .ti files: the only ones whose constructor receives the script arguments *)\n'
+    body += 'Definition f_sb_vararg_types : list string := [%s].\n' % '; '.join(coqs(x) for x in sorted(set(va)))
+    body += '(* DefaultObjectFactory<T> = DefaultObjectFactoryCheckArgs(args); return new T();  and the check throws on a non-empty list *)\n'
+    body += 'Definition f_sb_default_factory_checks_args : bool := %s.\n' % ('true' if (fac and re.search(r'if\s*\(\s*!\s*args\s*\.\s*empty\s*\(\s*\)\s*\)\s*\{?\s*BOOST_THROW_EXCEPTION', chk)) else 'false')
+    ccb = fn_body(vmops, r'static\s+inline\s+Value\s+ConstructorCall\s*\(') or ''
+    body += '(* VMOps::ConstructorCall tests the sandbox flag (it has no frame parameter today) *)\n'
+    body += 'Definition f_sb_ctor_call_guarded : bool := %s.\n\n' % ('true' if re.search(r'Sandboxed', ccb) else 'false')
+
     vq = strip_comments(rd('lib/remote/variablequeryhandler.cpp'))
     hg = sorted(set(re.findall(r'Get\s*\(\s*"name"\s*\)\s*==\s*"(\w+)"', vq)))
     body += '(* globals that /v1/variables refuses to show *)\n'
@@ -579,6 +652,7 @@ def run(rd, emit, log, enum_values, ti_default):
     # and what it assigns to their Sandboxed.  A frame constructed later is ABOVE on the thread's frame stack, and callee
     # frames inherit Sandboxed from the stack top.
     decls = []
+    decls3 = []
     for path, sigs in (('lib/remote/filterutility.cpp', [('FilteredAddTarget', r'static\s+void\s+FilteredAddTarget\s*\('),
                                                          ('FilterUtility::EvaluateFilter', r'bool\s+FilterUtility::EvaluateFilter\s*\('),
                                                          ('FilterUtility::GetFilterTargets', r'FilterUtility::GetFilterTargets\s*\(')]),
@@ -595,9 +669,30 @@ def run(rd, emit, log, enum_values, ti_default):
                 var = m.group(1)
                 ms = re.findall(r'\b' + var + r'\s*\.\s*Sandboxed\s*=\s*(\w+)\s*;', fb[m.end():])
                 decls.append((fname, var, ms[-1] if ms else 'unset'))
+                cargs = split_args(m.group(2))
+                decls3.append((fname, var, cargs[2] if len(cargs) >= 3 else 'none', ms[-1] if ms else 'unset'))
     body += '(* (function, frame variable, last value assigned to its Sandboxed) in source order *)\n'
     body += 'Definition f_sb_frame_decls : list (string * (string * string)) := %s.\n\n' % blist(
         ['(%s, (%s, %s))' % (coqs(a), coqs(b), coqs(c)) for a, b, c in decls])
+    # what the ScriptFrame CONSTRUCTOR is handed at each site (a flag passed there is overwritten by InitializeFrame, which copies
+    # Sandboxed from the frame on top of the thread's stack whenever the stack is not empty; an assignment after construction wins)
+    body += '(* (function, (frame variable, (third constructor argument or "none", last value assigned to Sandboxed afterwards or "unset"))) *)\n'
+    body += 'Definition f_sb_frame_decls3 : list (string * (string * (string * string))) := %s.\n\n' % blist(
+        ['(%s, (%s, (%s, %s)))' % (coqs(a), coqs(b), coqs(c), coqs(d)) for a, b, c, d in decls3])
+    sfh = strip_comments(rd('lib/base/scriptframe.hpp'))
+    third = False
+    for m in re.finditer(r'ScriptFrame::ScriptFrame\s*\(([^)]*)\)\s*:([^{]*)\{', sf):
+        params = split_args(m.group(1))
+        if len(params) >= 3:
+            pn = re.findall(r'(\w+)\s*(?:=[^,]*)?$', params[2].strip())
+            if pn and re.search(r'\bSandboxed\s*[\({]\s*' + pn[0] + r'\s*[\)}]', m.group(2)):
+                third = True
+    body += '(* some ScriptFrame constructor takes a third parameter that initialises Sandboxed *)\n'
+    body += 'Definition f_sb_frame_ctor_third_is_flag : bool := %s.\n' % ('true' if third else 'false')
+    ctor_n = len(re.findall(r'ScriptFrame::ScriptFrame\s*\(', sf))
+    init_n = len(re.findall(r'\bInitializeFrame\s*\(\s*\)\s*;', sf))
+    body += '(* every ScriptFrame constructor calls InitializeFrame(): (constructors, calls) *)\n'
+    body += 'Definition f_sb_frame_ctor_counts : Z * Z := (%d, %d).\n\n' % (ctor_n, init_n)
     frame_sites('lib/remote/filterutility.cpp', 'filterutility')
     frame_sites('lib/remote/eventqueue.cpp', 'eventqueue')
     frame_sites('lib/remote/consolehandler.cpp', 'consolehandler')
